@@ -24,3 +24,5 @@ from props import c03_ext_initial as _IN3
 UNITS += _IN3.UNITS
 from props import c03_ext_min as _MN3
 UNITS += _MN3.UNITS
+
+from props.c03_ext2 import UNITS as _U2; UNITS = UNITS + _U2
